@@ -102,10 +102,10 @@ theorem minHyp_ge {c : Ctx} (hw : WF c) {vs : List Nat} (ha : Adm c vs) (hm : Mi
 /-! ### the window per geometry -/
 
 theorem geom_table :
-    max Geom.spherical.minCurvature (-curvFac) = 1 ∧ Geom.spherical.maxCurvature = 4 * curvFac ∧
-    max Geom.euclidean.minCurvature (-curvFac) = 0 ∧ Geom.euclidean.maxCurvature = 0 ∧
-    max Geom.hyperbolic.minCurvature (-curvFac) = -curvFac ∧ Geom.hyperbolic.maxCurvature = -1 ∧
-    max Geom.all.minCurvature (-curvFac) = -curvFac ∧ Geom.all.maxCurvature = 4 * curvFac := by decide
+    max Geom.spherical.minCurvature Tables.minHypCutoff = 1 ∧ Geom.spherical.maxCurvature = 4 * curvFac ∧
+    max Geom.euclidean.minCurvature Tables.minHypCutoff = 0 ∧ Geom.euclidean.maxCurvature = 0 ∧
+    max Geom.hyperbolic.minCurvature Tables.minHypCutoff = -curvFac ∧ Geom.hyperbolic.maxCurvature = -1 ∧
+    max Geom.all.minCurvature Tables.minHypCutoff = -curvFac ∧ Geom.all.maxCurvature = 4 * curvFac := by decide
 
 /-- what a geometry setting asks of a branching vector, in exact rational curvature (the upper
     end `4 * CURV_FAC` of the spherical window is kept as it is in the source) -/
@@ -117,7 +117,7 @@ def GeomCond (g : Geom) (c : Ctx) (vs : List Nat) : Prop :=
   | .all => (0 ≤ curvQ c vs ∧ scaled c vs ≤ 4 * curvFac) ∨ MinHypQ c vs
 
 theorem window_iff {c : Ctx} (hw : WF c) (hnb : ¬ c.baseCurv < 0) (g : Geom)
-    (hmin : c.minCurv = max g.minCurvature (-curvFac)) (hmax : c.maxCurv = g.maxCurvature)
+    (hmin : c.minCurv = max g.minCurvature Tables.minHypCutoff) (hmax : c.maxCurv = g.maxCurvature)
     {vs : List Nat} (ha : Adm c vs) :
     (c.minCurv ≤ scaled c vs ∧ scaled c vs ≤ c.maxCurv ∧ (0 ≤ scaled c vs ∨ MinHyp c vs)) ↔
       GeomCond g c vs := by
